@@ -174,11 +174,15 @@ func init() {
 						plans = append(plans, plan{b, [][]int{s1, s2}})
 					}
 				}
-				if tier == "thorough" {
-					// three callers, one op each
+				{
+					// three callers, one op each (quick: only the triples in which a caller context ends while
+					// a deref made under it may be waiting, which needs a third party)
 					sp := seqSpace{n, 3}
 					for i := int64(0); i < sp.size(); i++ {
 						if d := sp.unrank(i); len(d) == 3 && d[0] <= d[1] && d[1] <= d[2] {
+							if tier != "thorough" && !(d[1] == 4 && d[2] == 5 || d[0] == 4 && d[2] == 5) {
+								continue
+							}
 							plans = append(plans, plan{b, [][]int{{d[0]}, {d[1]}, {d[2]}}})
 						}
 					}
@@ -272,6 +276,13 @@ func init() {
 					st := state.(*c10state)
 					if st.tornDown || !st.waiting || st.fut == nil {
 						return false
+					}
+					// only a state that is legitimately stuck is torn down: the body waits for a cancellation and
+					// callers wait in deref for its outcome; anything else blocked (a lock, say) is a deadlock
+					for _, why := range s.BlockedNow() {
+						if why != "wait-cancel" && why != "future.deref" {
+							return false
+						}
 					}
 					for _, h := range st.hist {
 						if h.done && h.op == 3 && h.result == "true" {
@@ -453,7 +464,7 @@ func init() {
 		}
 		fam := &vf.Family{
 			Name:    "future-scenarios",
-			Bounds:  "4 future bodies (returns, throws, waits for cancellation, ignores cancellation) x caller plans: one thread with every sequence of 1-3 operations over {deref, done?, cancelled?, cancel, deref under a cancellable caller context, end of that caller context}; two threads with 1-2 operations each (quick: <=3 operations in total); thorough: also three threads x 1 operation; per scenario all interleavings at the hook points of lib/concurrent (spawn, deliver, deliver->flag, cancel check/set, deref wait/re-deposit) up to preemption bound 2 (quick) / 3 (thorough)",
+			Bounds:  "4 future bodies (returns, throws, waits for cancellation, ignores cancellation) x caller plans: one thread with every sequence of 1-3 operations over {deref, done?, cancelled?, cancel, deref under a cancellable caller context, end of that caller context}; two threads with 1-2 operations each (quick: <=3 operations in total); three threads x 1 operation (quick: only triples with a cancellable deref and the end of its caller context); per scenario all interleavings at the hook points of lib/concurrent (spawn, deliver, deliver->flag, cancel check/set, deref wait/re-deposit) up to preemption bound 2 (quick) / 3 (thorough)",
 			Setup:   setup,
 			Timeout: 120 * time.Second,
 			N:       func(t string) int64 { tier = t; return int64(len(plansOf())) },
@@ -484,12 +495,55 @@ func init() {
 				}
 			},
 		}
+		// derefs under caller deadlines on the virtual clock (the rig of C07): a deref returns the
+		// outcome whenever it becomes available before the caller's deadline, however close to it
+		dlRig := &c07rig{}
+		dlShapes := []c07shape{
+			{name: "deref-of-sleeping-future", text: "(deref (future (do (sleep 50) (t! 1) 7)))", future: true},
+			{name: "deref-after-own-sleep", text: "(let [f (future (do (sleep 40) (t! 1) 7))] (sleep 20) (t! 2) (deref f))", future: true},
+			{name: "deref-twice", text: "(let [f (future (do (sleep 30) 7))] (list (deref f) (deref f)))", future: true},
+			{name: "deref-of-throwing-future", text: "(let [f (future (do (sleep 30) (throw 3)))] (deref f))", future: true},
+			{name: "deref-of-future-made-earlier", pre: "(def early (future (do (sleep 60) 9)))", text: "(deref early)", future: true},
+		}
+		famDl := &vf.Family{
+			Name:    "derefs-under-deadlines",
+			Bounds:  "5 programs that deref a future whose body sleeps and then returns or throws, run once without a deadline (completion at poll T of the virtual clock) and then under a caller deadline at every instant k in (T+3, 2T+10] and at 10T, 40T: the deref must deliver the same outcome and effects as without a deadline",
+			Setup:   func(t string) { tier = t; dlRig.setup() },
+			Timeout: 60 * time.Second,
+			N:       func(string) int64 { return int64(len(dlShapes)) },
+			Describe: func(i int64) string { return "deadline after completion: " + dlShapes[i].text },
+			Run: func(i int64, r *vf.Rec) {
+				sh := dlShapes[i]
+				ref := dlRig.run(sh, "deadline", 0)
+				r.Exec(1)
+				r.NT()
+				if ref.hang || ref.ticks >= c07Fuel-10 || strings.HasPrefix(ref.outcome, "panic") || ref.outcome == "timeout" {
+					r.Violation("deref of a completing future does not return", fmt.Sprintf("%s: %s after %d polls (hang=%v)", sh.text, ref.outcome, ref.ticks, ref.hang))
+					return
+				}
+				var ks []int64
+				for k := ref.ticks + 4; k <= 2*ref.ticks+10; k++ {
+					ks = append(ks, k)
+				}
+				ks = append(ks, 10*ref.ticks, 40*ref.ticks)
+				for _, k := range ks {
+					o := dlRig.run(sh, "deadline", k)
+					r.Exec(1)
+					if o.outcome != ref.outcome || strings.Join(o.trace, " ") != strings.Join(ref.trace, " ") {
+						r.ViolationCase("deref under a deadline that lies after the outcome became available does not deliver it", fmt.Sprintf("deadline at poll %d: %s", k, sh.text),
+							fmt.Sprintf("without deadline: %s after %d polls, effects %v; with it: %s after %d polls, effects %v", ref.outcome, ref.ticks, ref.trace, o.outcome, o.ticks, o.trace))
+						return
+					}
+				}
+				r.Outcome("outcome delivered under every later deadline")
+			},
+		}
 		return &vf.Check{
 			RacePass: c10RacePass,
 			ID: "C10", Level: "model_checking",
 			Rule: "every scenario (future body x caller threads x operations) is explored by the controlled scheduler over the real lib/concurrent with hook points in the deliver->flag, check->set and take->re-deposit windows; on every complete execution: the body ran exactly once, all derefs agree, status predicates are monotone in real-time order, done? is true after any deref returned and after a successful cancel, cancelled? is true after a successful cancel and never without one, cancel does not return false on a running future, and nothing blocks forever except derefs of a future that legitimately never completes; non-trivial = scenario with a context switch inside an operation",
 			Assumptions: []string{"plain (unsynchronised) flag accesses are atomic under the cooperative scheduler; data races on them are the race pass's job", "the caller context of the cancellable derefs is the harness's own type: Deref's select between an ended context and an available outcome is decided by the scheduler (outcome arm forced, context arm drawn and re-run until drawn)"},
-			Families: []*vf.Family{fam},
+			Families: []*vf.Family{fam, famDl},
 		}
 	})
 }
